@@ -100,6 +100,30 @@ def run(ctx: core.Ctx) -> int:
                        file=witness.FRAG, func="Reading", construct=f"delegate cal={cal}",
                        msg=f"{cls_}::sensor_model returns {got}; required `{want}` (the update of this very reading on the given state)")
     ctx.floor("DELEGATE", nd, 2, "Reading::sensor_model bodies")
+    # FLAG-DEF: which of the four control x calibration shapes is generated is decided by "has at least one control / calibration symbol"
+    from .. import estflow, rtmodel
+    import ast as _ast
+    ctx.rule("FLAG-DEF", "enable_control() <=> control_size > 0 and enable_calibration() <=> calibration_size > 0, in both generator classes")
+    nfd = 0
+    for cname in ("Model", "ExtendedKalmanFilter"):
+        c = core.find_class(w.cpp, cname)
+        for meth, fld in (("enable_control", "control_size"), ("enable_calibration", "calibration_size")):
+            fn = core.find_func(c, meth) if c is not None else None
+            if fn is None:
+                ctx.error(f"anchor missing: cpp.{cname}.{meth}")
+                continue
+            rets = [r for r in _ast.walk(fn) if isinstance(r, _ast.Return) and r.value is not None]
+            okf = False
+            if len(rets) == 1:
+                lits = estflow.literals([(rtmodel.py_expr(rets[0].value), True)])
+                okf = lits is not None and len(lits) == 1 and estflow.is_positive_test(
+                    next(iter(lits)), lambda x, fld=fld: isinstance(x, tuple) and x and x[0] == "field" and x[2] == fld and x[1] == ("this",))
+            nfd += 1
+            ctx.oblige("FLAG-DEF", f"{witness.CPP}:{cname}.{meth}", f"returns `{_ast.unparse(rets[0].value) if rets else None}`", okf, file=witness.CPP,
+                       func=f"{cname}.{meth}", construct=f"{meth} definition",
+                       msg=f"{cname}.{meth} returns `{_ast.unparse(rets[0].value) if rets else None}`, not `self.{fld} > 0`: a model with exactly one (or with no) "
+                           f"such symbol gets the wrong one of the four generated shapes", line=fn.lineno)
+    ctx.floor("FLAG-DEF", nfd, 4, "enable_* definitions")
     c10.mag_gen(ctx)
     # "returns what calling the prediction and update functions by hand in the same order returns": the C++ step and
     # tick plans (C10 / C11 rules, C++ instantiations only)
